@@ -50,6 +50,13 @@ def Mgr.nextBlock (m : Mgr) : Nat → Nat → Nat → Mgr × Nat × Nat
     | (_, none) => (m, mark, allocated)
     | (m', some bit) => m'.nextBlock size (mark ||| bit) (allocated + 1)
 
+/-- `NextBlockBitsMark(size)` with a Go `int` size: `for allocated := range size`
+runs zero times for a negative size and the function then returns
+`(0, size)` — the (negative) requested size itself as the "allocated" count. -/
+def Mgr.nextBlockInt (m : Mgr) (size : Int) : Mgr × Nat × Int :=
+  if size < 0 then (m, 0, size)
+  else ((m.nextBlock size.toNat 0 0).1, (m.nextBlock size.toNat 0 0).2.1, ((m.nextBlock size.toNat 0 0).2.2 : Int))
+
 /-- Loop body of `MapNumberToMark` over the set-bit positions: `i` is
 `numBitsFound`, state is `(number, mark)`. -/
 def numToMarkLoop : List Nat → Nat → Nat → Nat → Nat × Nat
